@@ -80,7 +80,7 @@ func (h *H) checkGels(id string, seedIdx, m, n, nrhs int, trans blas.Transpose, 
 		switch {
 		case scaleA > 0:
 			cs.sigTag = "max|a_ij| > bignum"
-		case m < n && trans == blas.Trans:
+		case m < n && trans != blas.NoTrans:
 			cs.sigTag = "m<n trans=T rescaling"
 		case scaleA < 0:
 			cs.sigTag = "max|a_ij| < smlnum"
@@ -205,7 +205,7 @@ func (h *H) planGels(add addFn) {
 	// Extreme scales: all four (shape, trans) arms.
 	for rep := 0; rep < h.reps(); rep++ {
 		for _, mn := range [][2]int{{9, 5}, {5, 9}, {6, 6}, {40, 20}, {20, 40}} {
-			for _, trans := range []blas.Transpose{blas.NoTrans, blas.Trans} {
+			for _, trans := range []blas.Transpose{blas.NoTrans, blas.Trans, blas.ConjTrans} {
 				for _, cls := range []string{"Btiny", "Bhuge", "ABtiny", "ABhuge", "Atiny", "Ahuge"} {
 					idx++
 					i := idx
@@ -218,7 +218,7 @@ func (h *H) planGels(add addFn) {
 	}
 	for rep := 0; rep < h.reps(); rep++ {
 		for si, mn := range shapes {
-			for ti, trans := range []blas.Transpose{blas.NoTrans, blas.Trans} {
+			for ti, trans := range []blas.Transpose{blas.NoTrans, blas.Trans, blas.ConjTrans} {
 				nrhsL := []int{1, 3}
 				if h.thorough() {
 					nrhsL = []int{0, 1, 3, 17}
